@@ -66,6 +66,19 @@ def _other_branch(D, t, inst, CC, qp):
     return False
 
 
+_PER_MECH = {}
+
+
+def _viol(ctx, monitor, message, case=None, mech=None, observed=None, expected=None):
+    """At most 3 witnesses per mechanism and shard (the bus keeps 40 per shard): further ones are only counted."""
+    n = _PER_MECH.get(mech, 0)
+    _PER_MECH[mech] = n + 1
+    if n < 3:
+        ctx.violation(monitor, message, case=case, mech=mech, observed=observed, expected=expected)
+    else:
+        ctx.count(f"more_witnesses[{mech}]")
+
+
 def run(ctx):
     import warnings
 
@@ -93,7 +106,7 @@ def run(ctx):
             e = P.error
             # a rule that says it is applicable must produce a circuit
             ctx.ev("rule.invocation")
-            ctx.violation("rule.invocation", f"{tagkey}::{rule.name} is applicable to {info['op']} but raised {type(e).__name__}: {e}",
+            _viol(ctx, "rule.invocation", f"{tagkey}::{rule.name} is applicable to {info['op']} but raised {type(e).__name__}: {e}",
                           case=info, mech=_mech("raise", tagkey, rule))
             continue
         ctx.ev("rule.invocation")
@@ -105,7 +118,7 @@ def run(ctx):
         # ---- work-wire lifetime
         ctx.ev("rule.workwires")
         if P.info["use_after_free"] or P.info["double_free"]:
-            ctx.violation("rule.workwires", f"{tagkey}::{rule.name}: work wire used after deallocation / deallocated twice: {P.info}",
+            _viol(ctx, "rule.workwires", f"{tagkey}::{rule.name}: work wire used after deallocation / deallocated twice: {P.info}",
                           case=info, mech=_mech("lifetime", tagkey, rule))
         # ---- matrices
         try:
@@ -164,6 +177,6 @@ def run(ctx):
         else:
             msg = (f"{tagkey}::{rule.name} on {info['op']}: circuit differs from the operator's matrix (max |delta| = {err:.3e}; "
                    f"modulo a global phase {res['err']:.3e}; work={info['work']}; target={how})")
-        ctx.violation("rule.matrix", msg, case=info, mech=mech, observed=res, expected={"err": 0.0})
+        _viol(ctx, "rule.matrix", msg, case=info, mech=mech, observed=res, expected={"err": 0.0})
     ctx.note("max_err_held", max_err)
     GI.report_uncovered_rules(ctx, qp, covered)
